@@ -42,7 +42,7 @@ from harness.common import Check, ddmin
 
 SCALE = 1024.0
 NWORKERS = 8
-TRACE = False
+TRACE = True
 
 # pass name -> (strict: every non-barrier op ends up in a block,
 #               barrier_aware: the pass claims to keep barrier-likes outside blocks)
@@ -558,19 +558,19 @@ def run_case(desc, want_lines=True, trace=False):
         ct = r.circ_text(before)
         pt = r.circ_text(c)
         bg = ' '.join(map(str, sorted(r.barrier_gids)))
-        lines = ['reset'] + r.defs
-        lines.append(f'check {k_eff} {int(strict)} {bg} | {ct} | {pt}')
+        checks = [f'check {k_eff} {int(strict)} {bg} | {ct} | {pt}']
         exp = [expected_clause(v, strict, True)]
         if not aware and has_bar:
             # second look with barriers treated as ordinary gates
-            lines.append(f'check {k_eff} {int(strict)} | {ct} | {pt}')
+            checks.append(f'check {k_eff} {int(strict)} | {ct} | {pt}')
             exp.append(expected_clause(v, strict, False))
         if events is not None:
             from harness import c08_quick
             ql, qe = c08_quick.render_events(r, before, events, k, c)
-            lines += ql
-            exp += qe
+            checks.append(ql)
+            exp.append(qe)
             res['quick_events'] = len(events)
+        lines = ['reset'] + r.defs + checks
         res['lines'] = lines
         res['nprefix'] = 1 + len(r.defs)
         res['expected'] = exp
@@ -795,7 +795,12 @@ def process(ck: Check, results):
         if ln.startswith('check'):
             ck.bump('lean_verdicts', out)
         else:
+            from harness import c08_quick
             ck.bump('quickspec_verdicts', out.split(' ')[0])
+            ck.bump('quickspec_moves', n=r.get('quick_events', 0))
+            bad = c08_quick.compare(out, exp)
+            out, exp = (bad, 'ok + the blocks of the real output') \
+                if bad else ('ok', 'ok')
         if out != exp:
             pname = r['pass']
             kind = ln.split(' ')[0]
